@@ -7,6 +7,7 @@ Everything a check learns from the specification goes through here:
 """
 from __future__ import annotations
 
+import hashlib
 import json
 import os
 import re
@@ -41,6 +42,7 @@ class TLCResult:
     coverage: dict = field(default_factory=dict)  # action/operator name -> count
     cex: str = ""  # error trace text if any
     init_states: int = 0  # "Finished computing initial states: N distinct states generated"
+    printed_total: int = 0  # number of printed JSON records (all of them, also when only a sample is kept)
 
     @property
     def ok(self) -> bool:
@@ -69,12 +71,23 @@ def _decode_tuple(line: str):
     return out
 
 
-def parse_output(text: str, res: TLCResult) -> None:
-    for line in text.splitlines():
+def parse_output(text, res: TLCResult, raw_mod: int = 0, raw_keep: str = "") -> None:
+    """text: the output of TLC (a str, or an iterable of lines).  raw_mod > 0 (large instances): a printed JSON record
+    is NOT decoded, its text is kept, and only for the records whose digest is 0 modulo raw_mod (a deterministic
+    sample); res.printed_total counts them all."""
+    for line in (text.splitlines() if isinstance(text, str) else text):
         s = line.strip()
         if not s:
             continue
         if s[0] == '"' and s[-1] == '"' and len(s) > 1:
+            res.printed_total += 1
+            if raw_mod:
+                if raw_mod == 1 or (raw_keep and raw_keep in s) or int.from_bytes(hashlib.blake2b(s.encode("utf-8", "replace"), digest_size=4).digest(), "big") % raw_mod == 0:
+                    try:
+                        res.printed.append(json.loads(s))
+                    except Exception:
+                        pass
+                continue
             try:
                 inner = json.loads(s)
                 try:
@@ -120,9 +133,45 @@ def parse_output(text: str, res: TLCResult) -> None:
         m = _COV2.match(s)
         if m:
             res.coverage[m.group(1)] = res.coverage.get(m.group(1), 0) + int(m.group(4))
-    i = text.find("Error: The behavior up to this point is")
-    if i >= 0:
-        res.cex = text[i : i + 20000]
+    if isinstance(text, str):
+        i = text.find("Error: The behavior up to this point is")
+        if i >= 0:
+            res.cex = text[i : i + 20000]
+
+
+def _run_lowmem(cmd, spec_dir, e, timeout, meta, raw_mod, t0, raw_keep="") -> TLCResult:
+    """as run(), for instances that print millions of records: the output goes to a file and is read line by line"""
+    outf = tempfile.NamedTemporaryFile(prefix="verif-tlc-out-", suffix=".txt", delete=False)
+    try:
+        try:
+            rc = subprocess.run(cmd, cwd=str(spec_dir), env=e, stdout=outf, stderr=subprocess.STDOUT, timeout=timeout).returncode
+            timed_out = False
+        except subprocess.TimeoutExpired:
+            rc, timed_out = 124, True
+        outf.close()
+        size = os.path.getsize(outf.name)
+        with open(outf.name, errors="replace") as fh:
+            head = fh.read(100_000)
+            if size > 500_000:
+                fh.seek(size - 400_000)
+                tail = fh.read()
+            else:
+                tail = ""
+        res = TLCResult(rc=rc, wall_s=time.time() - t0, stdout=head + ("\n... (output of TLC shortened) ...\n" + tail if tail else "") + ("\nError: TIMEOUT\n" if timed_out else ""))
+        with open(outf.name, errors="replace") as fh:
+            parse_output(fh, res, raw_mod=raw_mod, raw_keep=raw_keep)
+        if timed_out:
+            res.errors.append("Error: TIMEOUT")
+        i = res.stdout.find("Error: The behavior up to this point is")
+        if i >= 0:
+            res.cex = res.stdout[i : i + 20000]
+        return res
+    finally:
+        shutil.rmtree(meta, ignore_errors=True)
+        try:
+            os.unlink(outf.name)
+        except OSError:
+            pass
 
 
 def run(
@@ -142,6 +191,8 @@ def run(
     heap: str = "8g",
     extra: tuple = (),
     check: bool = False,
+    raw_mod: int = 0,  # > 0: large instance -- TLC writes to a file, printed records are kept as text, sampled 1 in raw_mod
+    raw_keep: str = "",  # records that contain this text are kept whatever the sample
 ) -> TLCResult:
     """Run TLC on spec_dir/<module>.tla with spec_dir/<cfg or module>.cfg ."""
     meta = tempfile.mkdtemp(prefix="verif-tlc-")
@@ -167,6 +218,8 @@ def run(
     if env:
         e.update({k: str(v) for k, v in env.items()})
     t0 = time.time()
+    if raw_mod:
+        return _run_lowmem(cmd, spec_dir, e, timeout, meta, raw_mod, t0, raw_keep)
     try:
         p = subprocess.run(cmd, cwd=str(spec_dir), env=e, stdout=subprocess.PIPE, stderr=subprocess.STDOUT,
                            timeout=timeout, text=True, errors="replace")
@@ -178,6 +231,9 @@ def run(
         shutil.rmtree(meta, ignore_errors=True)
     res = TLCResult(rc=rc, wall_s=time.time() - t0, stdout=out)
     parse_output(out, res)
+    if len(out) > 4_000_000:  # the emitted cases are in res.printed; keep the banner and the end (errors, summary) only
+        res.stdout = out[:100_000] + "\n... (output of TLC shortened) ...\n" + out[-400_000:]
+    del out
     if check:
         bad = [x for x in res.errors]
         if "Parsing or semantic analysis failed" in out or "Error: TIMEOUT" in out or (rc not in (0, 12, 13) and not res.errors):
